@@ -37,13 +37,15 @@ func (x *h) batchDeletes(thorough bool) error {
 		for _, pat := range patterns {
 			n++
 			dir := filepath.Join(filepath.Dir(x.dir), fmt.Sprintf("batch-%d", n))
-			base, err := store.NewOnDiskStore(dir, x.pass)
+			rawBase, err := store.NewOnDiskStore(dir, x.pass)
 			if err != nil {
 				return err
 			}
-			wcs := store.NewWriteControlledStore(base)
+			wcs := store.NewWriteControlledStore(rawBase)
+			base := x.watch(rawBase, "on-disk")
 			canon := fmt.Sprintf("batch-delete via=%s pattern=%s", via, pat)
 			ctx.Current(canon, nil)
+			x.sit = situation{Scenario: canon}
 			// two bystanders plus the IDs of the batch
 			content := map[string][]byte{}
 			var batch []imap.InternalMessageID
@@ -79,7 +81,7 @@ func (x *h) batchDeletes(thorough bool) error {
 			case "disk":
 				derr = base.Delete(batch...)
 			case "wcs":
-				derr = wcs.Delete(batch...)
+				derr = x.watch(wcs, "write-controlled").Delete(batch...)
 			case "unchecked":
 				derr = wcs.DeleteUnchecked(batch...)
 			}
